@@ -359,6 +359,8 @@ def cal_hesse_correct(fcn, params={}, corr_params={}, force_pos=True):
                 new_hi = (gp - gm) / _epsilon2
                 h[i, j] = new_hi
                 h[j, i] = new_hi
+    # the finite-difference calls above moved the parameters: go back to the fit point
+    fcn.vm.set_all(x0)
     print("Time for calculating errors:", time.time() - t)
     return h
 
